@@ -106,6 +106,25 @@ def check_powers(ctx, cirq, cirq_google, cirq_ionq, n):
             ctx.report_witness(f'power:{name}:{kind}', f'{kind} of {name} is not the matrix power defined by the eigen-decomposition',
                                {'lines': [{'gate': repr(g), 'power': t, 'power2': t2}], 'impl_out': [repr(np.round(got, 8).tolist())],
                                 'spec_out': [repr(np.round(want, 8).tolist())], 'theorem_or_correspondence': 'C08_eigen_powers_add'})
+    # a global phase, however its coefficient is spelled (python / numpy, real / complex): c**t = exp(i t arg c)
+    for cname, c in (('complex', 1j), ('int', -1), ('float', -1.0), ('np.float64', np.float64(-1.0)), ('np.float32', np.float32(-1.0)), ('np.complex128', np.complex128(-1.0)),
+                     ('np.int64', np.int64(-1)), ('complex-generic', complex(np.exp(0.7j))), ('np.float64+', np.float64(1.0))):
+        for t in (0.5, -0.5, 2, -1, 0.25, 1.5, 3, 0):
+            g = cirq.GlobalPhaseGate(c)
+            ctx.count('check', 'power:global-phase')
+            ctx.case(['pow-global-phase', cname, t], t not in (0, 1))
+            try:
+                p = cirq.pow(g, t, None)
+                got = None if p is None else cirq.unitary(p)
+            except Exception as ex:
+                got = f'{type(ex).__name__}: {ex}'[:100]
+            if got is None:
+                continue
+            want = np.array([[np.exp(1j * t * np.angle(complex(c)))]])
+            if isinstance(got, str) or not np.allclose(got, want, atol=1e-7):
+                ctx.report_witness('power:GlobalPhaseGate', 'a power of a global phase is not the phase raised to that power',
+                                   {'lines': [{'gate': repr(g), 'coefficient_type': cname, 'power': t}], 'impl_out': [repr(got)], 'spec_out': [repr(want.tolist())],
+                                    'theorem_or_correspondence': 'C08_eigen_powers_add'})
     # generic gates: inverse undoes, G**-1 is the adjoint
     for _ in range(n * 4):
         k = rng.choice([1, 1, 2, 2, 3])
